@@ -44,3 +44,21 @@ fn auto_num_threads(
             .min(available_threads.into()),
     }
 }
+
+#[cfg(feature = "verif-hooks")]
+pub const VERIF_MAX_UNSET_NUM_THREADS: usize = MAX_UNSET_NUM_THREADS;
+#[cfg(feature = "verif-hooks")]
+pub fn verif_calc_num_threads(
+    input_len: Option<usize>,
+    num_threads: NumThreads,
+    available: Option<usize>,
+) -> usize {
+    let available_threads = match available.and_then(NonZeroUsize::new) {
+        Some(x) => Ok(x),
+        None => Err(std::io::Error::new(std::io::ErrorKind::Other, "verif: unavailable")),
+    };
+    match num_threads {
+        NumThreads::Auto => auto_num_threads(input_len, available_threads),
+        NumThreads::Max(x) => set_num_threads(input_len, available_threads, x.into()),
+    }
+}
